@@ -480,7 +480,7 @@ def run(ctx):
                     mutated.append(name)
         return f
 
-    nfun = {'quick': (60, 60, 36), 'thorough': (600, 600, 400)}[ctx.tier]
+    nfun = {'quick': (80, 80, 50), 'thorough': (600, 600, 400)}[ctx.tier]
     funcs = []
     for sdim in (1, 2, 3):
         for _ in range(nfun[sdim - 1]):
@@ -1064,7 +1064,7 @@ def oracle_quarter_annulus(r1, r2):
 def oracle_checks(ctx, funcs):
     from pyiga import bspline, geometry, utils
     rng = np.random.default_rng(ctx.seed + 1007)
-    nor = 25 if ctx.tier == 'quick' else 300
+    nor = 35 if ctx.tier == 'quick' else 300
     count = 0
 
     def report(key, d, replay):
